@@ -35,6 +35,7 @@ def violators (e : Env) (s : State) : List (String × String × List String) :=
     ("C11", "modelOutlivesShards", s.shards.filterMap (fun sh => if sh.status ≠ ShardCompleted || (addU64 sh.createdAt sh.duration : Int) ≤ s.h ||
         (match s.getOrder sh.orderId with | some o => (s.getMeta o.dataId).isSome | none => true) then none else some s!"shard{sh.id}")),
     ("C11", "shardBacked", s.shards.filterMap (fun sh => if sh.status ≠ ShardCompleted || ((s.getPledge sh.sp).isSome && (s.getWorker sh.sp).isSome) then none else some s!"shard{sh.id}")),
+    ("C11", "metaLifetimeSane", s.metas.filterMap (fun m => if m.createdAt + m.duration < 9223372036854775808 then none else some s!"meta{m.dataId.take 8}")),
     ("C04", "escrowsSettled", if escrowsSettled e s then [] else ["escrows"]),
     ("C17", "didFunctional", if didFunctional s.did then [] else ["did"]),
     ("C17", "didListsAgree", if didListsAgree s.did then [] else ["did"]),
@@ -234,6 +235,22 @@ def checkStep (e : Env) (pre : Sys) (op : Op) (res : Res) (post : Sys) : List (S
        if refunded && shardsGone && metaOk then none
        else some ("C05", s!"clause=cleanRefund cls=none rec=order{o.id}:refund={refunded},shards={shardsGone},meta={metaOk}"))
    else []) ++
+  -- C16: an accepted update names the model's latest committed version as its base
+  (match op, res with
+   | .store m, .ok =>
+     (match pre.st.getMeta m.p.dataId with
+      | some md =>
+        let base := if m.p.commitId.contains BAR then (splitB m.p.commitId BAR).headD [] else m.p.commitId
+        if base = md.commit then [] else
+          [("C16", s!"clause=baseIsLatest cls={if base.length < md.commit.length then "partial-base" else "none"} rec=meta{m.p.dataId.take 8}")]
+      | none => [])
+   | _, _ => []) ++
+  -- C16: identifiers are never reused and grow with creation order
+  (if post.st.getOrderCount < pre.st.getOrderCount || post.st.shardCount < pre.st.shardCount then [("C16", "clause=countersMonotone cls=none")] else []) ++
+  (let newOrders := post.st.orders.filter (fun o => (pre.st.getOrder o.id).isNone)
+   let newShards := post.st.shards.filter (fun sh => (pre.st.getShard sh.id).isNone)
+   if newOrders.any (fun o => o.id < pre.st.getOrderCount) || newShards.any (fun sh => sh.id < pre.st.shardCount)
+   then [("C16", "clause=idReused cls=none")] else []) ++
   -- C19
   (if res = .ok then (faultViolations pre.st post.st op).map (fun v => ("C19", s!"clause=faultReport cls=none rec={v}")) else []) ++
   -- C17: a binding was created although the signed proof message does not name the DID
